@@ -107,7 +107,16 @@ pub(crate) fn assert_farm_asset(
         );
         // if the farm creation denom and the farm asset denom are different,
         // ensure only those two assets were sent
-        ensure!(info.funds.len() == 2usize, ContractError::AssetMismatch);
+        // unless there is no fee to pay, in which case only the farm asset is expected
+        let expected_coins = if farm_creation_fee.amount.is_zero() {
+            1usize
+        } else {
+            2usize
+        };
+        ensure!(
+            info.funds.len() == expected_coins,
+            ContractError::AssetMismatch
+        );
     } else {
         ensure!(
             params
